@@ -558,14 +558,19 @@ func (w *worker[T, JobType]) start() error {
 	}
 
 	defer w.notifyToPullNextJobs()
-	defer w.status.Store(running)
 
 	w.goEventLoop()
 	w.goRemoveIdleWorkers()
-	w.goListenToContext()
 
 	// init the first worker by default
 	w.pool.PushNode(w.initPoolNode())
+
+	// The worker must be Running before the context listener exists: when the
+	// context is already cancelled the listener calls Stop() at once, and Stop()
+	// refuses a worker that is still Initiated - the worker then kept running
+	// on a cancelled context.
+	w.status.Store(running)
+	w.goListenToContext()
 
 	return nil
 }
